@@ -649,25 +649,30 @@ theorem driving_estimator_decomposes (freqs mags : List ℝ) (g s delta npts tp 
 
 /-! ## Argument validation of `fit_power_spectrum` -/
 
-/-- a call is accepted exactly when the spectrum has at least 4 points, the loss function is one of
-    the two documented ones, bias correction is not combined with the robust loss, and the
-    analytical fit range is not empty -/
-theorem fit_validation_iff (npts nAnl : Nat) (loss : Loss) (bias : Bool) :
-    fitValidate npts loss bias nAnl = none ↔
-      (4 ≤ npts ∧ loss ≠ .other ∧ ¬(bias = true ∧ loss = .lorentzian) ∧ 1 ≤ nAnl) := by
+/-- a call is accepted exactly when the spectrum has at least 4 points, it is a `PowerSpectrum`, the
+    loss function is one of the two documented ones, bias correction is not combined with the robust
+    loss, and the analytical fit range is not empty -/
+theorem fit_validation_iff (npts nAnl : Nat) (isPS : Bool) (loss : Loss) (bias : Bool) :
+    fitValidate npts isPS loss bias nAnl = none ↔
+      (4 ≤ npts ∧ isPS = true ∧ loss ≠ .other ∧ ¬(bias = true ∧ loss = .lorentzian) ∧ 1 ≤ nAnl) := by
   unfold fitValidate
-  by_cases h1 : npts < 4 <;> by_cases h2 : nAnl < 1 <;> cases loss <;> cases bias <;> simp [h1, h2] <;> omega
+  by_cases h1 : npts < 4 <;> by_cases h2 : nAnl < 1 <;> cases isPS <;> cases loss <;> cases bias <;>
+    simp [h1, h2] <;> omega
 
-/-- which error, in the order of the code: too few points (RuntimeError) before the unknown loss
-    (ValueError) before bias + robust loss (RuntimeError) before the empty analytical range -/
-theorem fit_validation_errors (npts nAnl : Nat) (loss : Loss) (bias : Bool) :
-    (npts < 4 → fitValidate npts loss bias nAnl = some .runtime) ∧
-    (4 ≤ npts → loss = .other → fitValidate npts loss bias nAnl = some .value) ∧
-    (4 ≤ npts → loss = .lorentzian → bias = true → fitValidate npts loss bias nAnl = some .runtime) ∧
-    (4 ≤ npts → loss ≠ .other → ¬(bias = true ∧ loss = .lorentzian) → nAnl = 0 →
-      fitValidate npts loss bias nAnl = some .runtime) := by
+/-- which error, in the order of the code: too few points (RuntimeError) before the wrong argument
+    type (TypeError) before the unknown loss (ValueError) before bias + robust loss (RuntimeError)
+    before the empty analytical range -/
+theorem fit_validation_errors (npts nAnl : Nat) (isPS : Bool) (loss : Loss) (bias : Bool) :
+    (npts < 4 → fitValidate npts isPS loss bias nAnl = some .runtime) ∧
+    (4 ≤ npts → isPS = false → fitValidate npts isPS loss bias nAnl = some .type) ∧
+    (4 ≤ npts → isPS = true → loss = .other → fitValidate npts isPS loss bias nAnl = some .value) ∧
+    (4 ≤ npts → isPS = true → loss = .lorentzian → bias = true →
+      fitValidate npts isPS loss bias nAnl = some .runtime) ∧
+    (4 ≤ npts → isPS = true → loss ≠ .other → ¬(bias = true ∧ loss = .lorentzian) → nAnl = 0 →
+      fitValidate npts isPS loss bias nAnl = some .runtime) := by
   unfold fitValidate
-  by_cases h1 : npts < 4 <;> by_cases h2 : nAnl < 1 <;> cases loss <;> cases bias <;> simp [h1, h2] <;> omega
+  by_cases h1 : npts < 4 <;> by_cases h2 : nAnl < 1 <;> cases isPS <;> cases loss <;> cases bias <;>
+    simp [h1, h2] <;> omega
 example : (3 : Nat) < 4 ∧ (4 : Nat) ≤ 4 ∧ Loss.gaussian ≠ Loss.other := by decide
 
 /-! ## The hypotheses of the error-propagation theorems are ESTABLISHED by the constructor -/
